@@ -724,7 +724,12 @@ def _full_test_ok(prog, b, loop, helpers, GROW):
                     continue
                 side = a["true"] if a["op"] in ("Eq", "Ge", "Le") else a["false"]
                 other = a["false"] if side == a["true"] else a["true"]
-                if not (gb in reach(g.succs, [side]) and gb not in reach(g.succs, [other], avoid=[side])):
+                under_side = gb in reach(g.succs, [side]) and gb not in reach(g.succs, [other], avoid=[side])
+                under_other = gb in reach(g.succs, [other]) and gb not in reach(g.succs, [side], avoid=[other])
+                if not under_side and not under_other:
+                    continue
+                wrong_polarity = under_other and a["op"] in ("Eq", "Ne")
+                if under_other and not wrong_polarity:
                     continue
                 kinds = set()
                 for op_ in (a["lhs"], a["rhs"]):
@@ -743,6 +748,11 @@ def _full_test_ok(prog, b, loop, helpers, GROW):
                         kinds.add("count")
                     else:
                         kinds.add("last-read")
+                if wrong_polarity:
+                    # grown exactly when the buffer is NOT full (`len != count`): when it is full the next read gets an empty slice
+                    if kinds == {"len", "count"}:
+                        verdict = False
+                    continue
                 verdict = (kinds == {"len", "count"}) if verdict is not False else False
     return verdict
 
